@@ -144,7 +144,10 @@ func init() {
 			for it.Next() {
 				toks = append(toks, it.Value())
 			}
-			return &nativeTokIter{toks: toks, pos: -1}
+			// words.Iterator[string] is a struct embedding *iterators.Iterator[string] as field 0
+			st := zero(fr.fn.Signature.Results().At(0).Type()).(structure)
+			st[0] = &nativeTokIter{toks: toks, pos: -1}
+			return st
 		},
 
 		"time.Now":   extZeroResult,
